@@ -1,3 +1,4 @@
+import Desert.Lemmas.RoundTripFull
 import Desert.Lemmas.Transient
 import Desert.Lemmas.EnumLemmas
 /-!
@@ -20,12 +21,12 @@ theorem transient_values_irrelevant (env : Env) (ty : Ty) (v v' : Val) (st : Enc
     (h : normalize env ty v = normalize env ty v') : enc env ty v st = enc env ty v' st := by
   rw [← transient_field_no_bytes env ty v st, ← transient_field_no_bytes env ty v' st, h]
 
-/-- decoding sets every transient field to its declared default (headerless declarations):
+/-- decoding sets every transient field to its declared default (any well-formed declarations):
 the decoded value is `normalize v`, whose transient fields hold the defaults -/
-theorem transient_field_default (env : Env) (henv : EnvV0 env) (ty : Ty) (v : Val) (b : Bytes) (st' : EncSt)
+theorem transient_field_default (env : Env) (henv : EnvWF env) (ty : Ty) (v : Val) (b : Bytes) (st' : EncSt)
     (fuel : Nat) (he : enc env ty v [] = .ok (b, st')) (hu : v.utf8OK) (hd : v.depth < fuel) (t : Bytes) :
     ∃ s', runAbs (dec env fuel ty) (AbsSrc.new (b ++ t)) = .ok (normalize env ty v, s') :=
-  ⟨_, ((rt_all env henv v).1 ty [] b st' fuel he hu (by simp [StOK]) hd (AbsSrc.new (b ++ t)) t
+  ⟨_, ((rt_wf env henv v).1 ty [] b st' fuel he hu (by simp [StOK]) hd (AbsSrc.new (b ++ t)) t
     (WF_new _) (view_new _) rfl).1⟩
 
 /-- `normalize` really puts the default into a transient field -/
